@@ -523,6 +523,23 @@ def g12_slow_quota_decay(rng, big=False):
     return make_valid(s, rng)
 
 
+def g13_near_tolerance(rng, p):
+    """
+    two hopefuls level on first preferences, one of whom receives a single ballot of a surplus worth about 2*10^-(p+1) votes:
+    the two tallies then differ by less than half a unit of precision p (but not by nothing), so guarded arithmetic calls a tie
+    where exact arithmetic sees a strict order; which of them is excluded then depends on the tie-break order
+    """
+    N = rng.choice([1, 1, 2, 3]) * 10 ** (p + 1)
+    if rng.random() < 0.2:
+        N = 10 ** (p - 1)                                # difference well above the tolerance: no tie in either arithmetic
+    A, C, D = rng.sample([1, 2, 3], 3)
+    lines = [(N + 2, [A]), (1, [A, C]), (N, [C]), (N, [D])]
+    rng.shuffle(lines)
+    s = base(3, 2, lines, rng)
+    s['family'] = 'G13'
+    return s
+
+
 def g8_equal_ranks(rng, big=False):
     "ballots with equal rankings (meek / warren only)"
     nc = rng.randint(3, 8 if big else 6)
